@@ -2,7 +2,7 @@
     case = one feature map (span list + parent length), scales, sub-maps and
     slices; the observations are those of harness/props/c08_impl.py [run_fmap],
     in the same order. *)
-From CG3 Require Import Lib.PyZ Lib.Val Model.IndelMap Model.IndelMapRun Model.FeatureMap.
+From CG3 Require Import Lib.PyZ Lib.Val Model.IndelMap Model.IndelMapRun Model.FeatureMap Model.FeatureMapFixed.
 
 Definition vfspan (sp : fspan) : val :=
   match sp with FL n => VZ n | FS s e r => VL [VZ s; VZ e; VB r] end.
@@ -14,7 +14,8 @@ Inductive fcase :=
 | CFmap (spans : list fspan) (plen : Z) (scales : list Z) (subs : list (list fspan))
         (slices : list (option Z * option Z)).
 
-Definition run_fcase (c : fcase) : val :=
+(** [fixed] = the implementation behaves like the repaired [remap_with] (finding C08-6) *)
+Definition run_fcase_v (fixed : bool) (c : fcase) : val :=
   match c with
   | CFmap spans plen scales subs slices =>
       let fm := mk_fmap spans plen in
@@ -31,10 +32,12 @@ Definition run_fcase (c : fcase) : val :=
            vres vpairs (fm_get_gap_coordinates fm);
            vres vfm (fm_get_covering_span fm);
            VL (map (fun k => vfm (fm_mul fm k)) scales);
-           VL (map (fun sub => vres vfm (fm_getitem_map fm (mk_fmap sub (flen fm)))) subs);
-           VL (map (fun ab => vres vfm (fm_getitem_slice fm (fst ab) (snd ab))) slices);
+           VL (map (fun sub => vres vfm ((if fixed then fm_getitem_map_v2 else fm_getitem_map) fm (mk_fmap sub (flen fm)))) subs);
+           VL (map (fun ab => vres vfm ((if fixed then fm_getitem_slice_v2 else fm_getitem_slice) fm (fst ab) (snd ab))) slices);
            match fm_inverse fm with
            | Err _ => VN
            | Ok inv => vres vfm (fm_inverse inv)
            end ]
   end.
+
+Definition run_fcase : fcase -> val := run_fcase_v false.
